@@ -140,6 +140,8 @@ func runC18(_ *testing.T, c c18Case) (out kit.Outcome) {
 		addsAfterReset    int
 		sawReset          bool
 		sawNoChange       bool
+		prevStdev         float64
+		prevStdevKnown    = true // a new instance reports 0
 	)
 	resetRef := func() { count, sum, lo, hi, last, updated = 0, 0, 0, 0, 0, false }
 	tol := func(x float64) float64 { return math.Abs(x)*1e-9 + 1e-300 }
@@ -162,6 +164,7 @@ func runC18(_ *testing.T, c c18Case) (out kit.Outcome) {
 		switch op.K {
 		case "reset":
 			resetRef()
+			prevStdev, prevStdevKnown = 0, true
 			twin = c18New(c)
 			if g := twin.Get(); !sameF(g, got) {
 				return kit.Viol(c.Type+":reset-value", "op %d: Get() after Reset = %v, new instance = %v", i, got, g)
@@ -186,8 +189,10 @@ func runC18(_ *testing.T, c c18Case) (out kit.Outcome) {
 			// flag: true whenever the stored value changed
 			changed := !sameF(before, got)
 			if c.Type == "var" {
-				// the variance type reports (and returns) the standard deviation
-				changed = false
+				// the variance type reports the standard deviation: its flag must be true whenever the
+				// returned standard deviation differs from the previously returned one
+				changed = prevStdevKnown && !sameF(prevStdev, v)
+				prevStdev, prevStdevKnown = v, true
 			}
 			if changed && !flag {
 				return kit.Viol(c.Type+":flag", "op %d Add(%v): value changed %v -> %v but flag=false", i, op.V, before, got)
@@ -200,6 +205,7 @@ func runC18(_ *testing.T, c c18Case) (out kit.Outcome) {
 			}
 		case "mul", "plus":
 			updated = true
+			prevStdevKnown = false // Update overwrites the remembered deviation
 		}
 		// per-type value oracles
 		switch c.Type {
